@@ -460,6 +460,34 @@ def check_quoted(ctx):
                 first = True
             if isinstance(n, ast.Call) and method_call(n, 'endswith'):
                 last = True
+    # a length guard, where there is one, lets the two-character token
+    # (the empty quoted string) through
+    short = None
+    for c in sc:
+        for n in ast.walk(en.expand(c.expr)):
+            if isinstance(n, ast.Compare) and len(n.ops) == 1 and isinstance(
+                    n.left, ast.Call) and U(n.left.func) == 'len' and \
+                    is_const(n.comparators[0]) and isinstance(
+                        n.comparators[0].value, int):
+                k = n.comparators[0].value
+                opn = type(n.ops[0]).__name__
+                if not c.pol:
+                    opn = {'Gt': 'LtE', 'GtE': 'Lt', 'Lt': 'GtE',
+                           'LtE': 'Gt'}.get(opn, opn)
+                admits2 = {'Gt': 2 > k, 'GtE': 2 >= k, 'Lt': 2 < k,
+                           'LtE': 2 <= k, 'Eq': 2 == k,
+                           'NotEq': 2 != k}.get(opn, True)
+                if not admits2:
+                    short = (c, k, opn)
+    ctx.ob('C05.QUOTED', short is None, '%s:%d' % (
+        ctx.where(g.module, g.node).split(':')[0], tf.string_yield.line),
+        g.qual, 'length guard of the quoted-string test',
+        'two enclosing quotes make a string token, whatever is between them'
+        if short is None else
+        'the quoted-string test demands more than the two quotes (%s): the '
+        'empty quoted string `""` is then a check token - always deny - '
+        'that the grammar accepts as an operand (`not ""` allows everybody)'
+        % short[0].text()[:60])
     ok = first and last
     ctx.ob('C05.QUOTED', ok, '%s:%d' % (
         ctx.where(g.module, g.node).split(':')[0], tf.string_yield.line),
